@@ -57,6 +57,12 @@ def strategy(tier):
                 # small closed population observed late: the absorbing compartment does fill up to the declared upper limit
                 c["N"] = draw(st.integers(2, 8))
                 c["T"] = S.sig(draw(S.fl(1.5, 4.0, 3)) / min(ks), 4)
+            # the same law on a slow clock: rates nine orders of magnitude smaller, horizon correspondingly longer
+            clock = draw(st.sampled_from([1.0, 1.0, 1.0, 1e-9]))
+            if clock != 1.0:
+                c["k"] = [S.sig(v * clock, 4) for v in c["k"]]
+                c["T"] = S.sig(c["T"] / clock, 4)
+                c["slow_clock"] = True
             if c["entry"] == "grid":
                 # the same law read through the gridded output: every requested time, the last one (= horizon) included
                 fr = sorted(set(draw(st.lists(st.sampled_from([0.2, 0.35, 0.5, 0.65, 0.8]), min_size=1, max_size=3))))
